@@ -26,7 +26,8 @@ RULE = (
     "of those attributes (values from small alphabets incl. None, fractional charges, arrays of length 1/2/3, "
     "restricted/unrestricted orbitals) or an observer read, their interleaving chosen by the seeded scheduler. After "
     "every step I1..I6 are evaluated on a deep copy; the mutator-only projection is executed a second time without "
-    "the observer (I7). Non-trivial = the history holds at least one interleaved read and one rejected operation; "
+    "the observer (I7). Threaded runs: 2..3 real threads, each executing its own history on its own object under the "
+    "baton scheduler (pre-emption at iodata lines); every client's outcomes must equal its solo run. Non-trivial = the history holds at least one interleaved read and one rejected operation; "
     "distinct = hash of the operation list."
 )
 ASSUMPTIONS = [
@@ -377,7 +378,55 @@ def run_ops(trace, with_observer=True, check=True):
     return out, mut_outcomes, final, info
 
 
+def setup_worker():
+    from sim import sched
+
+    sched.MONITOR.install(common.REPO)
+
+
+def run_threads(trace, rng=None):
+    """Several clients, each executing its own history on its own object, interleaved by the baton scheduler
+    at iodata line granularity.  Objects are distinct, so every client's outcomes must equal its solo run
+    (catches process-wide switches such as globally disabled validators)."""
+    from sim import sched
+
+    hists = trace["histories"]
+    solo = []
+    for h in hists:
+        _o, mo, fin, _i = run_ops(h, True, False)
+        solo.append((mo, fin))
+    policy = tuple(trace["policy"])
+    if trace.get("schedule") is not None:
+        policy = ("replay", trace["schedule"])
+    baton = sched.Baton(rng, policy, horizon=3000)
+    got = [None] * len(hists)
+
+    def make(i):
+        def body():
+            _o, mo, fin, _i = run_ops(hists[i], True, False)
+            got[i] = (mo, fin)
+        return body
+
+    with sched.Steps(sched=baton) as st:
+        done = baton.run([make(i) for i in range(len(hists))])
+    out = []
+    for c in done:
+        if c.error is not None:
+            out.append({"cls": "T0_client_died", "sig": f"T0_client_died|{type(c.error).__name__}",
+                        "msg": f"client {c.idx} died under interleaving: {type(c.error).__name__}: {c.error}", "trace": copy.deepcopy(trace)})
+    for i, (a, b) in enumerate(zip(got, solo)):
+        if a is not None and a != b:
+            k = next((j for j, (x, y) in enumerate(zip(a[0], b[0])) if x != y), None)
+            out.append({"cls": "T1_outcome_differs_under_interleaving", "sig": "T1_outcome_differs_under_interleaving|",
+                        "msg": f"client {i}: mutator step {k} gave {str(a[0][k])[:90] if k is not None and k < len(a[0]) else a[1]} under interleaving "
+                               f"but {str(b[0][k])[:90] if k is not None and k < len(b[0]) else b[1]} alone (distinct objects!)",
+                        "trace": copy.deepcopy(trace)})
+    return out, baton, st.steps
+
+
 def execute(trace):
+    if "histories" in trace:
+        return run_threads(trace, rng=common.rng_for("replay"))[0]
     out, mo_a, fin_a, info = run_ops(trace, True, True)
     has_obs = any(op["who"] == "obs" for op in trace["ops"])
     if has_obs:
@@ -487,6 +536,9 @@ def plan(tier, seed, args):
         for i in range(n):
             tasks.append({"run": run, "seed": seed, "tier": tier, "n": 40})
             run += 1
+        for i in range(n // 2):
+            tasks.append({"run": run, "seed": seed, "tier": tier, "threads": 12})
+            run += 1
     return tasks
 
 
@@ -496,6 +548,28 @@ def run_task(task):
     viols = []
     dig = []
     sample = None
+    if "threads" in task:
+        for j in range(task["threads"]):
+            nth = rng.choice([2, 2, 3])
+            r = rng.random()
+            policy = ["random", rng.choice([0.01, 0.05, 0.2])] if r < 0.6 else ["newline", 0.01, rng.choice([0.1, 0.3])] if r < 0.8 else ["pct", rng.choice([1, 2, 3])]
+            trace = {"histories": [gen_trace(rng) for _ in range(nth)], "policy": policy, "schedule": None}
+            srng = common.rng_for(task["seed"], ID, task["run"], j, "schedule")
+            vs, baton, steps = run_threads(trace, srng)
+            for v in vs:
+                v["trace"]["schedule"] = baton.replay_list()
+            viols.extend(vs)
+            nsw = sum(1 for sw in baton.switches if sw[0] > 0)
+            stats.inc("outcome.threaded_runs")
+            stats.inc("probe.switches_inside_iodata", nsw)
+            stats.inc("steps", steps)
+            if nsw:
+                stats.add("nontrivial", common.short(common.jdump(trace) + repr(baton.switches)))
+            stats.add("schedules", common.short(repr(baton.switches)))
+            dig.append((common.short(common.jdump(trace)), len(vs), common.short(repr(baton.switches))))
+        return {"n": task["threads"], "digest": common.short(repr(dig)), "violations": viols, "stats": stats.export(),
+                "sample": {"mode": "threads", "histories": [h["ops"][:4] for h in trace["histories"]], "policy": trace["policy"],
+                           "switches": len(baton.switches)} if task["run"] % 101 == 0 else None}
     if "exh" in task:
         traces = exhaustive_histories(*task["exh"])
         stats.add("exhaustive_spaces", f"construct<={task['exh'][0]}args x depth<={task['exh'][1]}")
@@ -526,6 +600,10 @@ def run_task(task):
 
 def shrink(trace, still_fails):
     t = copy.deepcopy(trace)
+    if "histories" in t:
+        if t.get("schedule"):
+            t["schedule"] = shr.ddmin_list(t["schedule"], lambda sc: still_fails({**t, "schedule": sc}))
+        return t
     head, rest = t["ops"][:1], t["ops"][1:]
     rest = shr.ddmin_list(rest, lambda r: still_fails({"ops": head + r}))
     t["ops"] = head + rest
@@ -542,6 +620,7 @@ def shrink(trace, still_fails):
 def coverage_extra(stats, tier):
     return {
         "distinct_states": stats.distinct("histories"),
+        "distinct_interleavings": stats.distinct("schedules"),
         "exhaustive_subspaces": sorted(stats.s.get("exhaustive_spaces", [])),
         "exhaustive_histories": stats.c.get("probe.exhaustive_histories", 0),
         "exhaustive_note": "the listed sub-spaces (all constructions with that many arguments over the value alphabets x all operation "
